@@ -23,6 +23,22 @@ PROPS = {
         ],
         "gen": [],
     },
+    "C15": {
+        "level_text": "Lean 4 theorems over an executable model of the provider byte pipe (UTF-8 carry buffer with U+FFFD replacement as Rust's from_utf8 reports errors, line-based SSE decoder, frame mapper, stop-at-[DONE] read loop): the SSE decoder is chunk-invariant at string level for every partition; exactly one provider frame per event with the payload unchanged; output text = concatenation of deltas; numbering contiguous for every body and chunking; byte-level chunk invariance of the whole pipe (theorem bytes_chunk_invariant, see evidence for whether this build includes it). Tied to the code by differential correspondence: bodies from an SSE grammar incl. invalid UTF-8 x partitions (one chunk, byte-at-a-time, every single split, random) through the real OpenResponsesSsePipe (exported under cfg rip_verif) and through the compiled model; plus unit correspondence for from_utf8 (valid_up_to, error_len) and SseDecoder; plus implementation oracles (chunking invariance against the one-chunk run, seq contiguity, derived text).",
+        "level_note": "Lean kernel; JSON parsing and delta extraction are an uninterpreted function evaluated by serde_json on both sides; reqwest/hyper chunk delivery = any partition of the body; the read loop of stream_openresponses_request is mirrored by the exported pipe_feed (the real loop is exercised end to end by C07/C16 scenarios).",
+        "technique": "Lean 4 proof (induction over chunks; numbering invariant) + differential correspondence check",
+        "design_ref": "§5 C15",
+        "trusted_base": COMMON_TB + [
+            "modelled, not verified: core::str::from_utf8 error reporting (re-modelled and diff-tested on every run), str::trim/trim_start, String::split",
+            "uninterpreted: serde_json parsing of the data payload, schema validation errors (not compared)",
+            "hook: ripd::verif_export::session::pipe_feed mirrors the read loop of stream_openresponses_request",
+        ],
+        "assumptions": [
+            "the network delivers the body as some partition into chunks, in order, without loss",
+            "schema-validation error lists inside provider_event frames are not part of the comparison",
+        ],
+        "gen": [],
+    },
     "C20": {
         "level_text": "Lean 4 theorems over an executable model of FrameStore and the TuiState::update fold: frame/output/preview bounds for every frame sequence and capacity, truncation cut on a char boundary, lookup-by-seq sound for every store state and complete on consecutive stores; the model is tied to the code by a differential correspondence run (same frame sequences through rip-tui and the compiled model) plus implementation oracles.",
         "level_note": "Lean kernel; axioms propext/Quot.sound only; model written by hand and validated by the correspondence check; BTreeMap/VecDeque/String modelled as lists; artifact-id extraction, job/context summaries and rendering not modelled.",
